@@ -47,13 +47,17 @@ def run(ctx):
     ctx.model_check("Brew", "Brew_mut2.cfg", expect_violation="NoLeak", note="Brew.tla: without the sort by fold the completion order leaks into the routing")
     ctx.phase("generation")
     ngroups = 2 if ctx.quick else 6
+    ncli = 1 if ctx.quick else 3          # the same histories through the command-line entry point (mokapot.mokapot.main)
     groups = []
-    for g in range(ngroups):
+    for g in range(ngroups + ncli):
         folds = 3 if (ctx.quick or g % 2 == 0) else 4
         base = {"data_seed": int(ctx.seed * 100 + g + 1), "n": 900 if ctx.quick else 1500, "folds": folds, "seed": int(7 + g),
                 "workers": 1, "proteins": bool(g % 2 == 0), "peps": "qvality",
                 # every other group trains on a random subset of each training set (subset_max_train below its size)
                 "cap": (250 if g % 2 == 1 else None)}
+        if g >= ngroups:
+            base.update(cli=True, proteins=bool((g - ngroups) % 3 == 1), cap=(300 if (g - ngroups) % 3 == 2 else None),
+                        peps=["qvality", "kde_nnls", "hist_nnls"][(g - ngroups) % 3])
         sessions = [("inproc", 0, dict(base)), ("inproc-repeat", 0, dict(base))]
         for hs in ([1, 2] if ctx.quick else [1, 2, 3, 4, 5, 6, 7]):
             sessions.append(("fresh", hs, dict(base)))
@@ -75,7 +79,7 @@ def run(ctx):
         results = [None] * len(G["sessions"])
         for i, (kind, hs, spec) in enumerate(G["sessions"]):
             if kind.startswith("inproc"):
-                results[i] = c08_worker.session(spec)
+                results[i] = c08_worker.session_cli(spec) if spec.get("cli") else c08_worker.session(spec)
         idx = [i for i, (kind, hs, spec) in enumerate(G["sessions"]) if kind == "fresh"]
         with ThreadPoolExecutor(max_workers=12) as ex:
             for i, r in zip(idx, ex.map(lambda i: sub_session(G["sessions"][i][2], G["sessions"][i][1]), idx)):
@@ -86,7 +90,7 @@ def run(ctx):
             refe = lab.pop("refeed_equals_first", "equal")
             if lab.pop("refeed_skipped_untrained_model", None):
                 ctx.cov["refeed_sessions_skipped_untrained_model"] = ctx.cov.get("refeed_sessions_skipped_untrained_model", 0) + 1
-            cfg = "%s hashseed=%s workers=%s refeed=%s" % (kind, hs, spec.get("workers"), spec.get("refeed"))
+            cfg = "%s%s hashseed=%s workers=%s refeed=%s" % ("cli " if spec.get("cli") else "", kind, hs, spec.get("workers"), spec.get("refeed"))
             runs.append({"cfg": cfg, "raised": r["raised"] if r["raised"] else ("" if refe == "equal" else "refeed differs: " + refe),
                          "raised_type": (r["raised"].split(":")[0] if r["raised"] else ("" if refe == "equal" else "RefeedDiffers")),
                          "vals": [], "files": [], "digests": [lab[k] for k in sorted(lab)], "labels": sorted(lab)})
@@ -126,7 +130,7 @@ def run(ctx):
     return ctx.finish(
         rule="a case = one analysis session (brew with a LinearSVC model, in every other group with subset_max_train below the training-set "
              "size, + assign_confidence with qvality PEPs, optionally proteins from a FASTA with sub-proteins and same-sequence entries) of a "
-             "(dataset, seed): two in-process repeats, fresh interpreters with PYTHONHASHSEED 1..%d, workers 2 and 4, and models fed back in "
+             "(dataset, seed), through the Python API and (other groups) through the command line with --save_models / --load_models: two in-process repeats, fresh interpreters with PYTHONHASHSEED 1..%d, workers 2 and 4, and models fed back in "
              "%s; distinct = distinct (dataset, session parameters)" % (2 if ctx.quick else 7, "3 orders" if ctx.quick else "every order"),
         exhaustive=False)
 
